@@ -248,9 +248,14 @@ def message_ok(m):
     is the one of `type`: the classes of the subset have no metaclass)"""
     if isinstance(m, ast.Constant) and type(m.value) is str:
         return True
-    if isinstance(m, ast.JoinedStr):                       # f"... {name!r} ..."
+    if isinstance(m, ast.JoinedStr):                       # f"... {name!r} ... {type(name)!r} ..."
+        def plain(v):
+            return ((isinstance(v, ast.Name) and v.id not in MESSAGE_BUILTINS)
+                    or (isinstance(v, ast.Call) and isinstance(v.func, ast.Name) and v.func.id == "type"
+                        and not v.keywords and len(v.args) == 1 and isinstance(v.args[0], ast.Name)
+                        and v.args[0].id not in MESSAGE_BUILTINS))
         return all((isinstance(v, ast.Constant) and type(v.value) is str)
-                   or (isinstance(v, ast.FormattedValue) and isinstance(v.value, ast.Name)
+                   or (isinstance(v, ast.FormattedValue) and plain(v.value)
                        and v.conversion in (-1, 114, 115) and v.format_spec is None)
                    for v in m.values)
     if (isinstance(m, ast.BinOp) and isinstance(m.op, ast.Mod) and isinstance(m.left, ast.Constant)
